@@ -369,7 +369,7 @@ pub struct MsgState {
 pub fn msg_alphabet() -> Alphabet {
     let mut a = alphabet_r2();
     a.name = "R2+short-chunks".into();
-    for (off, d) in [(0u16, vec![]), (16, vec![]), (0, vec![0x01u8]), (16, vec![0xFE])] {
+    for (off, d) in [(0u16, vec![]), (16, vec![]), (0, vec![0x01u8]), (16, vec![0xFE]), (32, vec![0x33u8; 254]), (32, vec![0x44u8; 255])] {
         a.msgs.push(Message::SendData(Offset(off), Data::try_new(d).unwrap()));
         a.cfg_only.push(false);
     }
@@ -550,12 +550,53 @@ pub fn check_bridge(line: &[u8], reply: bool, fault: u8, j: usize) -> (String, V
     (outcome, out)
 }
 
+/// Two lines through the SAME bridge: whatever the first line was (valid, malformed, empty), a valid second line
+/// must be forwarded and answered normally.
+pub fn check_bridge_seq(line1: &[u8], line2: &[u8]) -> (String, Vec<V>) {
+    let log = new_log();
+    let mut tape = line1.to_vec();
+    tape.extend_from_slice(line2);
+    let sio = ScriptIo::new(tape, log.clone());
+    let io = Rc::new(RefCell::new(sio));
+    let port = ScriptPort::new(io.clone(), Line { baud: serial_core::Baud300, char_size: serial_core::Bits5, parity: serial_core::ParityEven, stop_bits: serial_core::Stop2, flow: serial_core::FlowHardware }, Duration::from_millis(3), None);
+    let calls = Rc::new(RefCell::new(0u32));
+    let reply_msg = Message::ReportState(Address(3), State::PageLoaded);
+    let bus = CountingBus { calls: calls.clone(), reply: Some(reply_msg.clone()), fail: false };
+    let mut out: Vec<V> = vec![];
+    let mut odk = match Odk::try_new(port, bus) {
+        Ok(o) => o,
+        Err(e) => return ("setup-failed".into(), vec![("setup".into(), "odk".into(), e.to_string())]),
+    };
+    let r = catch(|| {
+        let r1 = odk.process_message();
+        let calls1 = *calls.borrow();
+        let written1 = io.borrow().written.len();
+        let r2 = odk.process_message();
+        (r1.map_err(|e| format!("{:?}", e)), calls1, written1, r2.map_err(|e| format!("{:?}", e)))
+    });
+    let desc = format!("bridge reading {} and then {}", show_bytes(&line1[..line1.len().min(40)]), show_bytes(&line2[..line2.len().min(40)]));
+    let (_r1, calls1, written1, r2) = match r {
+        Err(p) => return ("panic".into(), vec![("no-panic".into(), p.class(), format!("{} panicked: {}", desc, p.message))]),
+        Ok(x) => x,
+    };
+    let first_ok = matches!(ref_parse(line1), RefParse::Accept { .. });
+    let calls2 = *calls.borrow() - calls1;
+    let written2 = io.borrow().written[written1..].to_vec();
+    let cls = if first_ok { "after-valid-line" } else { "after-undecodable-line" };
+    if calls2 != 1 || r2.is_err() {
+        out.push(("bridge-forwards-each-frame".into(), format!("second-line:{}", cls), format!("{}: second call returned {:?}, the bus saw {} call(s) for it", desc, r2, calls2)));
+    } else if written2 != ref_wire(&reply_msg) {
+        out.push(("bridge-writes-back-iff-replied".into(), format!("second-line:{}", cls), format!("{}: the reply to the second line was written as {}", desc, show_bytes(&written2))));
+    }
+    (cls.to_string(), out)
+}
+
 pub fn run(ctx: &Ctx) -> Report {
     let mut rep = Report::new(ctx);
     let thorough = ctx.tier.thorough();
     rep.rule = "E2 differential: (a) controller level - breadth-first search to a fixed point over pairs (virtual bus behind the full serial path, identical virtual bus driven directly) with the operations configure, configure_if_needed, send_pages of 4 lists, show, load_next, shut_down, configure as another type, configure an absent address, \
-                for all 11 sign types x both flip styles x addresses; (b) message level - the same over the R2 message alphabet extended with 0/1/15-byte chunks and a type-0 unknown frame, each message sent down both paths; after every step results, replies and every sign's state/type/pages are compared and every bridge call is judged (one decoded message in, a frame back iff the bus replied); \
-                (c) every reply/malformed line of the C16 list x {bus replies, silent} x {no fault, read error at every call index, write error, bus error} injected at a bridge on a scripted port. distinct_nontrivial = distinct stored pair states + bridge runs"
+                for all 11 sign types x both flip styles x addresses; (b) message level - the same over the R2 message alphabet extended with 0/1/15/254/255-byte chunks, each message sent down both paths; after every step results, replies and every sign's state/type/pages are compared and every bridge call is judged (one decoded message in, a frame back iff the bus replied); \
+                (c) every reply/malformed line of the C16 list x {bus replies, silent} x {no fault, read error at every call index, write error, bus error} injected at a bridge on a scripted port, and every such line followed by a valid second line through the SAME bridge (which must be forwarded and answered normally). distinct_nontrivial = distinct stored pair states + bridge runs"
         .into();
     rep.trusted_base = vec!["the in-process duplex pipe (PortA/PortB in c17.rs)".into(), "bfs.rs".into(), "refmodel ref_parse/ref_classify/ref_wire for judging bridge calls".into(), "the sleep seam (pauses skipped)".into()];
     let budget = ctx.clone();
@@ -631,6 +672,22 @@ pub fn run(ctx: &Ctx) -> Report {
     for a in accs {
         all.merge("C17", a);
     }
+    // sequences through one bridge
+    let seconds: Vec<Vec<u8>> = vec![crate::refmodel::ref_encode(3, 2, &[0xFF], true), crate::refmodel::ref_encode(16, 0, &[0x11; 16], true), crate::refmodel::ref_encode(0, 0, &[0x22; 255], true)];
+    for (li, l1) in lines.iter().enumerate() {
+        if l1.1.is_empty() {
+            continue;
+        }
+        for (si, l2) in seconds.iter().enumerate() {
+            all.evals += 1;
+            let (outcome, vs) = check_bridge_seq(&l1.1, l2);
+            all.outcomes.add(&format!("bridge-seq:{}", outcome));
+            all.nontrivial_fp.push((1u64 << 45) | ((li as u64) << 8) | si as u64);
+            for (clause, class, detail) in vs {
+                all.violation("C17", Violation::new(&clause, class, detail, json!({"kind": "bridge-seq", "line1": hex(&l1.1), "line2": hex(l2), "shown": format!("{} then {}", show_bytes(&l1.1), show_bytes(&l2[..l2.len().min(30)]))}), (1 << 51) + (li * 8 + si) as u64));
+            }
+        }
+    }
     let bridge_runs = all.evals;
     rep.transitions += bridge_runs;
     let nt = rep.absorb(all);
@@ -671,6 +728,10 @@ pub fn replay(ctx: &Ctx, case: &Value) -> Result<Vec<Violation>, String> {
                 }
                 _ => Err("unknown system".into()),
             }
+        }
+        Some("bridge-seq") => {
+            let (_, vs) = check_bridge_seq(&crate::util::unhex(case["line1"].as_str().ok_or("line1")?), &crate::util::unhex(case["line2"].as_str().ok_or("line2")?));
+            Ok(mk(vs))
         }
         Some("bridge") => {
             let (_, vs) = check_bridge(&crate::util::unhex(case["line"].as_str().ok_or("line")?), case["reply"].as_bool().unwrap_or(false), case["fault"].as_u64().unwrap_or(0) as u8, case["j"].as_u64().unwrap_or(0) as usize);
